@@ -2,7 +2,7 @@
 
 For the days of a grid (the ends and the middle of every month) of the 21 class years and of the year after, held in each
 representation (the representation produced by folding the converter), every pair is compared by folding dt_dcmp; the sign must be
-the sign of the difference of the days.  Date-times (a day with one of five times of day) and epoch values (negative ones included)
+the sign of the difference of the days.  Date-times (a day with one of five times of day; one second with five sub-second parts) and epoch values (negative ones included)
 go through dt_dtcmp."""
 import datetime
 from core import AnalysisBroken, NotConst
@@ -128,6 +128,20 @@ def _worker(ys):
                         lst = bad.setdefault(kind, [])
                         if len(lst) < 200:
                             lst.append((pts[i].isoformat(), pts[j].isoformat(), got, exp))
+        # below the second: the same day and second, different nanoseconds (parsed with %N) -- the order is the nanoseconds' order
+        base = datetime.datetime(y, 6, 30, 12, 0, 1)
+        nss = [0, 1, 250000000, 500000000, 999999999]
+        sub = [{"typ": E["DT_YMD"], "sandwich": 1, "d.typ": E["DT_YMD"], "d.ymd.y": base.year, "d.ymd.m": base.month, "d.ymd.d": base.day,
+                "t.typ": E["DT_HMS"], "t.hms.h": base.hour, "t.hms.m": base.minute, "t.hms.s": base.second, "t.hms.ns": ns} for ns in nss]
+        for i in range(len(nss)):
+            for j in range(len(nss)):
+                n += 1
+                got = call(dtu, "dt_dtcmp", dict(sub[i]), dict(sub[j]))
+                exp = _sgn(nss[i] - nss[j])
+                if got != exp:
+                    lst = bad.setdefault("date-times", [])
+                    if len(lst) < 200:
+                        lst.append((base.isoformat() + ".%09d" % nss[i], base.isoformat() + ".%09d" % nss[j], got, exp))
     return n, bad
 
 
